@@ -215,16 +215,16 @@ def alphabet(group, nenv):
 
 def searches(tier):
     """(name, alphabet group, environment indices, depth bound or None = fixpoint, merged?)"""
-    small = [("cell", "cell", [0, 1, 2], None, True),
+    small = [("cell", "cell", [0, 1, 2, 7], None, True),
              ("query-memos", "query-memos", [0], None, True),
              ("probes", "probes", [0, 1, 2], None, True)]
     if tier == "quick":
         return small
-    return small + [("cell-large", "cell", [0, 1, 2, 3, 4, 5, 6], None, True),
+    return small + [("cell-large", "cell", [0, 1, 2, 3, 4, 5, 6, 7], None, True),
                     ("query-memos-large", "query-memos3", [0, 3], None, True),
                     ("probes-large", "probes+switches", [0, 1, 2, 3], None, True),
                     ("all", "all", [0, 1, 2], 6, True),
-                    ("cell-unmerged", "cell", [0, 1, 2], 4, False),
+                    ("cell-unmerged", "cell", [0, 1, 2, 7], 4, False),
                     ("query-memos-unmerged", "query-memos", [0], 5, False),
                     ("probes-unmerged", "probes", [0, 1, 2], 5, False)]
 
